@@ -16,9 +16,9 @@ import ast
 
 import z3
 
-from pyvc.task import Task
+from pyvc.task import Task, FiniteTask
 from pyvc.interp import Config, LoopSpec
-from pyvc.values import SV, Obj, Env, Ev, PyRaise, Unsupported, SymSeq
+from pyvc.values import SV, Obj, Env, Ev, PyRaise, Unsupported, SymSeq, PathEnd
 from pyvc.symcoll import SymMap
 from contracts.negotiation import UIDv, neg_config, loops_of, PR
 
@@ -156,14 +156,16 @@ class RequestorSiteTask(Task):
         self.prefix = prefix
         self.P = f"{prefix}{NEG_RQ_SITE}"
 
-    def config(self, repo):
+    def config(self, repo, with_loop_contract=True):
         c = neg_config(self.prefix)
         fi = repo.func(NEG_RQ_SITE)
-        loops = [n for n in loops_of(fi) if isinstance(n, ast.For)]
-        if len(loops) != 1 or not isinstance(loops[0].target, ast.Name):
-            raise Unsupported(f"_negotiate_as_requestor: expected one for-loop over the requested contexts, found {len(loops)}")
-        allloops = sorted([n for n in ast.walk(fi.node) if isinstance(n, (ast.For, ast.While))], key=lambda n: (n.lineno, n.col_offset))
-        c.loop_specs[(NEG_RQ_SITE, allloops.index(loops[0]))] = ApplyRolesLoop(self, loops[0].target.id)
+        if with_loop_contract:
+            loops = [n for n in loops_of(fi) if isinstance(n, ast.For)]
+            if len(loops) != 1 or not isinstance(loops[0].target, ast.Name):
+                raise Unsupported(f"_negotiate_as_requestor: expected one for-loop with a plain loop variable (over the requested "
+                                  f"contexts), found {len(loops)} for-loop(s)")
+            allloops = sorted([n for n in ast.walk(fi.node) if isinstance(n, (ast.For, ast.While))], key=lambda n: (n.lineno, n.col_offset))
+            c.loop_specs[(NEG_RQ_SITE, allloops.index(loops[0]))] = ApplyRolesLoop(self, loops[0].target.id)
         c.summaries["pynetdicom.events:trigger"] = _trigger
         c.summaries[f"{AC}:ACSE.send_request"] = lambda I, a, k: I.trace.append(Ev("send_request"))
         c.summaries[f"{AC}:ACSE.send_abort"] = lambda I, a, k: I.trace.append(Ev("send_abort", tuple(a[1:])))
@@ -545,3 +547,85 @@ class SendAssociateTask(Task):
             I.ob(f"{P}/one-result-item-per-negotiated-context:accepted-followed-by-rejected",
                  isinstance(res, ConcatSeq) and len(res.parts) == 2 and res.parts[0] is acc and res.parts[1] is rej, detail=repr(res))
             I.ob(f"{P}/user-information-is-the-acceptor's-user-information-list", one("user_information") is vals[("acceptor", "user_information")])
+
+
+class RequestorSiteFamilyTask(FiniteTask):
+    """bounded stand-in (labelled bounded, never counted as proved): the REAL _negotiate_as_requestor executed on every list of
+    1..3 requested contexts over two abstract syntaxes (repeated abstract syntaxes included) x every set of role items for those
+    abstract syntaxes with roles from {None, True, False}^2 (a representative 4) - concrete loops, no loop contract needed, so
+    it also decides restructured code; what is compared is the role pair of every requested context at the moment the
+    negotiation function is called.  A disagreement is a concrete input, replayed natively."""
+    name = "bounded/_negotiate_as_requestor/roles-applied-for-up-to-3-contexts-over-2-abstract-syntaxes"
+    functions = [NEG_RQ_SITE]
+    backend = "bounded-exhaustive"
+    ROLES = [(None, None), (True, False), (None, True), (True, True)]
+
+    def __init__(self, prefix="C11/"):
+        self.prefix = prefix
+
+    def check(self, repo, emit):
+        import itertools
+        from pyvc.interp import Interp
+        P = f"{self.prefix}bounded:{NEG_RQ_SITE}"
+        site = RequestorSiteTask(self.prefix)
+        cfg = site.config(repo, with_loop_contract=False)
+        snap = {}
+
+        def neg(I, args, kw):
+            snap["roles"] = [(c.fields.get("_scu_role"), c.fields.get("_scp_role")) for c in args[0]]
+            return []
+        cfg.summaries[f"{PR}:negotiate_as_requestor"] = neg
+        I = Interp(repo, cfg)
+        cls = repo.cls(f"{PR}:PresentationContext")
+        PP = "pynetdicom.pdu_primitives"
+        AB = ["1.2.840.10008.5.1.4.1.1.2", "1.2.840.10008.5.1.4.1.1.4"]
+        bad, n = None, 0
+        role_maps = [{}]
+        for a in self.ROLES:
+            role_maps += [{AB[0]: a}, {AB[1]: a}]
+            role_maps += [{AB[0]: a, AB[1]: b} for b in self.ROLES]
+        for k in (1, 2, 3):
+            for abs_ in itertools.product(AB, repeat=k):
+                for rmap in role_maps:
+                    n += 1
+                    I.begin_path([])
+                    snap.clear()
+                    cxs = []
+                    for i, ab in enumerate(abs_):
+                        o = Obj(cls, tag=f"rq[{i}]")
+                        o.fields.update(_context_id=2 * i + 1, _abstract_syntax=ab, _scu_role=None, _scp_role=None, result=None,
+                                        _as_scu=None, _as_scp=None)
+                        cxs.append(o)
+                    me = Env("acse", cls=repo.cls(f"{AC}:ACSE"))
+                    assoc, requestor, acceptor, dul, sock = (Env("acse.assoc"), Env("acse.requestor"), Env("acse.acceptor"),
+                                                             Env("acse.dul"), Env("acse.socket"))
+                    me.attrs.update(_assoc=assoc, assoc=assoc, requestor=requestor, acceptor=acceptor, dul=dul, socket=sock, acse_timeout=5)
+                    sock.attrs.update(_ready=Env("acse.socket._ready"), _is_connected=True)
+                    requestor.attrs["requested_contexts"] = cxs
+                    items = {}
+                    for ab, (scu, scp) in rmap.items():
+                        it = Env(f"role_item[{ab}]")
+                        it.attrs.update(scu_role=scu, scp_role=scp)
+                        items[ab] = it
+                    requestor.attrs["role_selection"] = items
+                    acceptor.attrs["role_selection"] = {}
+                    rsp = Env("rsp", cls=repo.cls(f"{PP}:A_ASSOCIATE"))
+                    rsp.attrs.update(result=0, presentation_context_definition_results_list=Env("rsp.results"))
+                    I.ghost["rsp"] = rsp
+                    try:
+                        kind, val = I.run_function(repo.func(NEG_RQ_SITE), [me])
+                    except PathEnd:
+                        kind, val = "return", None
+                    want = [((rmap[ab][0] or False, rmap[ab][1] or False) if ab in rmap else (None, None)) for ab in abs_]
+                    got = snap.get("roles")
+                    if kind != "return" or got != want:
+                        bad = {"requested contexts (abstract syntaxes)": list(abs_), "role items (abstract syntax -> (scu, scp))": {k_: list(v) for k_, v in rmap.items()},
+                               "roles of the requested contexts at the negotiation": got, "expected": want,
+                               "outcome": f"{kind}:{val!r}" if kind != "return" else "returned"}
+                        break
+                if bad:
+                    break
+            if bad:
+                break
+        emit(f"{P}/every-requested-context-carries-the-roles-proposed-for-its-abstract-syntax[bounded:{n}-configurations]",
+             bad is None, detail=bad, model=bad)
